@@ -21,7 +21,10 @@ if in_repo:
 else:
     tree = "/tmp/seedrepo_%d" % os.getpid()
     r = sh("git -C /repo worktree add --detach %s HEAD" % tree); assert r.returncode == 0, r.stdout
-r = sh("git -C %s apply %s/patch.diff" % (tree, d)); assert r.returncode == 0, r.stdout
+r = sh("git -C %s apply %s/patch.diff" % (tree, d))
+if r.returncode != 0:      # /repo's HEAD has moved since the patch was taken (later fix: commits): fall back to a three-way merge on the blobs the patch names
+    r = sh("git -C %s apply -3 %s/patch.diff" % (tree, d))
+assert r.returncode == 0, r.stdout
 try:
     for p in props:
         t0 = time.time()
